@@ -991,18 +991,22 @@ def dominated_mod_flags(body, x, edges=(), blocks=(), depth=0):
     return False
 
 
-def guarded_by_pred(body, x, pred, depth=0):
-    """x hangs on the true side of a test whose value satisfies pred(origin) - directly (`if test {x}`), negated with the false
-    side, or through a flag all of whose non-false definitions are such a test result or are themselves guarded"""
+def guarded_by_pred(body, x, pred, depth=0, side=True):
+    """x hangs on the `side` (True: true side, False: false side) of a test whose value satisfies pred(origin) - directly
+    (`if test {x}`), negated with the other side, or through a flag: x hangs on that side of `if flag`, and every definition of the
+    flag that can give it that value (anything but the opposite constant) is such a test result or is itself guarded"""
     for sbb, te, fe, o in guards_on(body, pred):
-        if te and body.dominated_by_any(x, edges=te):
+        e = te if side else fe
+        if e and body.dominated_by_any(x, edges=e):
             return True
     if depth > 3:
         return False
+    opposite = "false" if side else "true"
     for sbb, te, fe, l in _flag_switches(body):
-        if not te or not body.dominated_by_any(x, edges=te):
+        e = te if side else fe
+        if not e or not body.dominated_by_any(x, edges=e):
             continue
-        live = [d for d in _flag_defs(body, l) if d[1] != "false"]
+        live = [d for d in _flag_defs(body, l) if d[1] != opposite]
         if not live:
             continue
         ok = True
@@ -1018,7 +1022,7 @@ def guarded_by_pred(body, x, pred, depth=0):
                     continue
             if kind == "rv" and pl["k"] == "bin" and pred({"k": "bin", "op": pl["op"], "a": pl["a"], "b": pl["b"], "bb": bb}):
                 continue
-            if guarded_by_pred(body, bb, pred, depth + 1):
+            if guarded_by_pred(body, bb, pred, depth + 1, side):
                 continue
             ok = False
         if ok:
